@@ -7,6 +7,7 @@ From DV Require Import Base.Prelude Model.BTreeM Model.BTreeStoreM Proofs.BTreeB
 Inductive rep (s : store) : nat -> tree -> list nat -> Prop :=
 | rep_node id n kids fps :
     nth_error s id = Some n ->
+    (s_leaf n = true -> s_kids n = []) ->          (* leaves have no children *)
     reps s (s_kids n) kids fps ->
     NoDup (id :: concat fps) ->
     rep s id (Node (s_leaf n) (s_elts n) kids) (id :: concat fps)
@@ -21,8 +22,14 @@ Scheme rep_mind := Induction for rep Sort Prop
 Lemma rep_inv s id lf es kids fp :
   rep s id (Node lf es kids) fp ->
   exists n fps, nth_error s id = Some n /\ s_leaf n = lf /\ s_elts n = es /\
-                reps s (s_kids n) kids fps /\ fp = id :: concat fps /\ NoDup fp.
-Proof. intros H. inversion H; subst. eauto 10. Qed.
+                reps s (s_kids n) kids fps /\ fp = id :: concat fps /\ NoDup fp /\
+                (lf = true -> s_kids n = [] /\ kids = []).
+Proof.
+  intros H. inversion H as [? n ? fps Hn Hlk Hr Hnd]; subst. exists n, fps.
+  split; [assumption|]. split; [reflexivity|]. split; [reflexivity|]. split; [assumption|].
+  split; [reflexivity|]. split; [assumption|]. intros Hlf. split; [auto|].
+  rewrite (Hlk Hlf) in Hr. inversion Hr. reflexivity.
+Qed.
 
 Lemma reps_length s ids trs fps : reps s ids trs fps -> length ids = length trs /\ length fps = length trs.
 Proof. induction 1; cbn; [auto|]. destruct IHreps. lia. Qed.
@@ -51,12 +58,19 @@ Proof.
   inversion H2 as [|k ks tr trs fp fps' Hk Hks]; subst. exists i1, k, ks, f1, fp, fps'. repeat split; auto.
 Qed.
 
+Lemma reps_cons_inv s ids tr trs fps :
+  reps s ids (tr :: trs) fps -> exists k ks fp fps', ids = k :: ks /\ fps = fp :: fps' /\ rep s k tr fp /\ reps s ks trs fps'.
+Proof. intros H. inversion H; subst. eauto 10. Qed.
+
+Lemma reps_nil_inv s ids fps : reps s ids [] fps -> ids = [] /\ fps = [].
+Proof. intros H. inversion H; auto. Qed.
+
 (* footprints contain valid ids only *)
 Lemma rep_valid s : forall id tr fp, rep s id tr fp -> forall x, In x fp -> (x < length s)%nat.
 Proof.
   apply (rep_mind s (fun id tr fp _ => forall x, In x fp -> (x < length s)%nat)
                     (fun ids trs fps _ => forall x, In x (concat fps) -> (x < length s)%nat)).
-  - intros id n kids fps Hn Hr IH Hnd x [<-|Hx]; [apply nth_error_Some; congruence|auto].
+  - intros id n kids fps Hn Hlk Hr IH Hnd x [<-|Hx]; [apply nth_error_Some; congruence|auto].
   - intros x [].
   - intros k ks tr trs fp fps Hr IH Hrs IHs x Hx. cbn in Hx. apply in_app_iff in Hx as [Hx|Hx]; auto.
 Qed.
@@ -73,7 +87,7 @@ Lemma rep_frame s s' : forall id tr fp, rep s id tr fp ->
 Proof.
   apply (rep_mind s (fun id tr fp _ => (forall x, In x fp -> nth_error s' x = nth_error s x) -> rep s' id tr fp)
                     (fun ids trs fps _ => (forall x, In x (concat fps) -> nth_error s' x = nth_error s x) -> reps s' ids trs fps)).
-  - intros id n kids fps Hn Hr IH Hnd Hag. constructor; [rewrite Hag; [assumption|now left]| |assumption].
+  - intros id n kids fps Hn Hlk Hr IH Hnd Hag. constructor; [rewrite Hag; [assumption|now left]|assumption| |assumption].
     apply IH. intros x Hx. apply Hag. now right.
   - constructor.
   - intros k ks tr trs fp fps Hr IH Hrs IHs Hag. constructor.
@@ -99,7 +113,7 @@ Proof.
                  | [] => Some []
                  | k :: r => match abs f s k, go r with Some k', Some r' => Some (k' :: r') | _, _ => None end
                  end) ids = Some trs)).
-  - intros id n kids fps Hn Hr (fu & IH) Hnd. exists (S fu). intros f Hf. destruct f as [|f]; [lia|].
+  - intros id n kids fps Hn Hlk Hr (fu & IH) Hnd. exists (S fu). intros f Hf. destruct f as [|f]; [lia|].
     cbn [abs]. rewrite Hn. rewrite IH by lia. reflexivity.
   - exists 0%nat. reflexivity.
   - intros k ks tr trs fp fps Hr (f1 & IH1) Hrs (f2 & IH2). exists (Nat.max f1 f2). intros f Hf.
@@ -221,6 +235,55 @@ Proof. split; [intros H; inversion H; auto|intros (H1 & H2); now constructor]. Q
 Lemma concat_mid {A} (a : list (list A)) x b : concat (a ++ x :: b) = concat a ++ x ++ concat b.
 Proof. rewrite concat_app. reflexivity. Qed.
 
+Lemma nd2 (pid lid rid : nat) (A L R B : list nat) :
+  NoDup (pid :: A ++ (lid :: L) ++ (rid :: R) ++ B) ->
+  NoDup (L ++ R) /\
+  (forall x, In x A \/ In x L \/ In x R \/ In x B -> x <> pid /\ x <> lid /\ x <> rid) /\
+  NoDup (lid :: L) /\ NoDup (rid :: R) /\ (pid <> lid /\ pid <> rid /\ lid <> rid).
+Proof.
+  intros H. apply NoDup_cons_iff' in H as (Hp & H). apply NoDup_app_iff in H as (HA & H & HdA).
+  change ((lid :: L) ++ (rid :: R) ++ B) with (lid :: (L ++ (rid :: R) ++ B)) in H, HdA, Hp.
+  apply NoDup_cons_iff' in H as (Hl & H). apply NoDup_app_iff in H as (HL & H & HdL).
+  change ((rid :: R) ++ B) with (rid :: (R ++ B)) in H, HdL, Hl, Hp, HdA.
+  apply NoDup_cons_iff' in H as (Hr & H). apply NoDup_app_iff in H as (HR & HB & HdR).
+  split; [|split; [|split; [|split]]].
+  5:{ repeat split; intros Heq.
+      - apply Hp. rewrite in_app_iff. right. left. exact (eq_sym Heq).
+      - apply Hp. rewrite in_app_iff. right. right. rewrite in_app_iff. right. left. exact (eq_sym Heq).
+      - apply Hl. rewrite in_app_iff. right. left. exact (eq_sym Heq). }
+  - apply NoDup_app_iff. split; [assumption|]. split; [assumption|]. intros x Hx Hx'. apply (HdL x Hx). right. apply in_app_iff. now left.
+  - intros x Hx. repeat split; intros ->.
+    + apply Hp. rewrite !in_app_iff. cbn [In]. rewrite !in_app_iff. cbn [In]. rewrite in_app_iff. tauto.
+    + destruct Hx as [Hx|[Hx|[Hx|Hx]]].
+      * apply (HdA lid Hx). now left.
+      * apply Hl. rewrite in_app_iff. tauto.
+      * apply Hl. rewrite in_app_iff. cbn [In]. rewrite in_app_iff. tauto.
+      * apply Hl. rewrite in_app_iff. cbn [In]. rewrite in_app_iff. tauto.
+    + destruct Hx as [Hx|[Hx|[Hx|Hx]]].
+      * apply (HdA rid Hx). right. rewrite in_app_iff. cbn [In]. tauto.
+      * apply (HdL rid Hx). now left.
+      * apply Hr. rewrite in_app_iff. tauto.
+      * apply Hr. rewrite in_app_iff. tauto.
+  - apply NoDup_cons_iff'. split; [|assumption]. intros Hi. apply Hl. apply in_app_iff. now left.
+  - apply NoDup_cons_iff'. split; [|assumption]. intros Hi. apply Hr. apply in_app_iff. now left.
+Qed.
+
+Lemma in_fp2 (x pid lid rid : nat) fa L R fb :
+  In x (pid :: concat (fa ++ (lid :: L) :: (rid :: R) :: fb)) <->
+  pid = x \/ In x (concat fa) \/ lid = x \/ In x L \/ rid = x \/ In x R \/ In x (concat fb).
+Proof.
+  rewrite concat_mid. cbn [concat]. cbn [In]. rewrite in_app_iff. change ((lid :: L) ++ (rid :: R) ++ concat fb) with (lid :: (L ++ rid :: (R ++ concat fb))).
+  cbn [In]. rewrite in_app_iff. cbn [In]. rewrite in_app_iff. tauto.
+Qed.
+
+Lemma len_fp2 (pid lid rid : nat) fa L R fb :
+  length (pid :: concat (fa ++ (lid :: L) :: (rid :: R) :: fb)) =
+  S (length (concat fa) + S (length L) + S (length R) + length (concat fb)).
+Proof.
+  rewrite concat_mid. cbn [concat]. change ((lid :: L) ++ (rid :: R) ++ concat fb) with (lid :: (L ++ rid :: (R ++ concat fb))).
+  cbn [length]. rewrite app_length. cbn [length]. rewrite app_length. cbn [length]. rewrite app_length. lia.
+Qed.
+
 Section SIM.
 Variable c : nat.   (* creator of the mutating tree *)
 Notation own := (ownc c).
@@ -228,23 +291,24 @@ Notation own := (ownc c).
 (* ---------------------------------------------------------------- maybe_cow *)
 
 Lemma cow_sim s id tr fp s' id' :
-  rep s id tr fp -> (n_leaf tr = true -> n_kids tr = []) ->
+  rep s id tr fp ->
   s_maybe_cow s id c = Ok (s', id') ->
   exists fp', rep s' id' tr fp' /\ own s' id' /\ fr s s' [] /\ sub s fp fp'.
 Proof.
-  intros Hr Hlk H. destruct tr as [lf es kids]. apply rep_inv in Hr as (n & fps & Hn & Hl & He & Hk & -> & Hnd).
+  intros Hr H. destruct tr as [lf es kids]. apply rep_inv in Hr as (n & fps & Hn & Hl & He & Hk & -> & Hnd & Hlk).
   unfold s_maybe_cow, sget in H. rewrite Hn in H. cbn [bind] in H.
   destruct (Nat.eqb_spec (s_cr n) c) as [Hc|Hc].
   - inversion H; subst s' id'. exists (id :: concat fps). split; [|split; [exists n; auto|split; [apply fr_refl|apply sub_refl]]].
-    subst lf es. now constructor.
+    subst lf es. constructor; auto. intros Hlf. now destruct (Hlk Hlf).
   - unfold alloc in H. inversion H; subst s' id'. clear H.
     set (n' := mkS c (s_leaf n) (s_elts n) (if s_leaf n then [] else s_kids n)).
     assert (Hfr : fr s (s ++ [n']) []) by apply alloc_fr.
     exists (length s :: concat fps). split; [|split; [|split]].
     + subst lf es. change (s_leaf n) with (s_leaf n'). change (s_elts n) with (s_elts n').
-      constructor; [apply nth_alloc| |].
+      constructor; [apply nth_alloc| | |].
+      * cbn [s_kids s_leaf n']. intros ->. reflexivity.
       * cbn [s_kids n']. destruct (s_leaf n) eqn:El.
-        -- cbn in Hlk. specialize (Hlk eq_refl). subst kids. inversion Hk; subst. constructor.
+        -- destruct (Hlk eq_refl) as (Hk0 & ->). rewrite Hk0 in Hk. inversion Hk; subst. constructor.
         -- eapply reps_fr; [exact Hk|exact Hfr|]. auto.
       * apply NoDup_cons_iff'. apply NoDup_cons_iff' in Hnd as (_ & Hnd). split; [|assumption].
         intros Hi. pose proof (reps_valid _ _ _ _ Hk _ Hi). lia.
@@ -256,16 +320,17 @@ Qed.
 (* the state of a parent whose child i has been made ready for writing *)
 Lemma cow_child_sim s pid lf es ka ck kb fp i s' cid :
   rep s pid (Node lf es (ka ++ ck :: kb)) fp -> length ka = i -> own s pid ->
-  (n_leaf ck = true -> n_kids ck = []) ->
   s_maybe_cow_child s pid i = Ok (s', cid) ->
   exists n ia ib fa fc fb,
     nth_error s' pid = Some n /\ s_cr n = c /\ s_leaf n = lf /\ s_elts n = es /\ s_kids n = ia ++ cid :: ib /\
     reps s' ia ka fa /\ rep s' cid ck fc /\ reps s' ib kb fb /\ length ia = i /\
     NoDup (pid :: concat (fa ++ fc :: fb)) /\ own s' cid /\
-    fr s s' [pid] /\ sub s fp (pid :: concat (fa ++ fc :: fb)).
+    fr s s' [pid] /\ sub s fp (pid :: concat (fa ++ fc :: fb)) /\
+    (forall j k, j <> i -> (exists m, nth_error s pid = Some m /\ nth_error (s_kids m) j = Some k) ->
+                 nth_error (ia ++ cid :: ib) j = Some k).
 Proof.
-  intros Hr Hi (p0 & Hp0 & Hc0) Hlk H.
-  apply rep_inv in Hr as (p & fps & Hp & Hl & He & Hk & -> & Hnd). assert (p0 = p) by congruence. subst p0.
+  intros Hr Hi (p0 & Hp0 & Hc0) H.
+  apply rep_inv in Hr as (p & fps & Hp & Hl & He & Hk & -> & Hnd & _). assert (p0 = p) by congruence. subst p0.
   apply reps_mid in Hk as (ia & cid0 & ib & fa & fc & fb & Hids & -> & Hra & Hrc & Hrb & Lia & Lfa).
   unfold s_maybe_cow_child, sget in H. rewrite Hp in H. cbn [bind] in H.
   destruct (s_leaf p) eqn:Elf.
@@ -273,7 +338,7 @@ Proof.
   rewrite Hids in H. rewrite split_at_app in H by congruence. cbn [bind] in H.
   destruct (s_maybe_cow s cid0 (s_cr p)) as [(s1 & cid')| |] eqn:Ecow; cbn [bind] in H; try discriminate.
   rewrite Hc0 in Ecow.
-  destruct (cow_sim _ _ _ _ _ _ Hrc Hlk Ecow) as (fc' & Hrc' & Hoc & Hfr1 & Hsub1).
+  destruct (cow_sim _ _ _ _ _ _ Hrc Ecow) as (fc' & Hrc' & Hoc & Hfr1 & Hsub1).
   assert (Hnd' : NoDup (pid :: concat (fa ++ fc' :: fb))).
   { rewrite concat_mid in *. apply NoDup_cons_iff' in Hnd as (Hpn & Hnd). apply NoDup_cons_iff'.
     apply NoDup_app_iff in Hnd as (Hna & Hncb & Hd1). apply NoDup_app_iff in Hncb as (Hnc & Hnb & Hd2).
@@ -305,6 +370,7 @@ Proof.
     + eapply reps_fr; [exact Hra|split; [exact L1|split; [exact F1|exact C1]]|auto].
     + eapply reps_fr; [exact Hrb|split; [exact L1|split; [exact F1|exact C1]]|auto].
     + eapply fr_weaken; [split; [exact L1|split; [exact F1|exact C1]]|]. intros x [].
+    + intros j k Hj (m & Hm & Hk). assert (m = p) by congruence. subst m. rewrite Hids in Hk. exact Hk.
   - destruct (upd s1 pid (fun p1 => w_kids p1 (ia ++ cid' :: ib))) as [s2| |] eqn:Eu; cbn [bind] in H; try discriminate.
     inversion H; subst s' cid. clear H.
     destruct (upd_spec _ _ _ _ Eu) as (p1 & Hp1 & Hp2 & Hlen & Hoth).
@@ -325,6 +391,401 @@ Proof.
     + eapply reps_fr; [eapply reps_fr; [exact Hrb|exact Hfr1|auto]|exact Hfr2|].
       intros x Hx [<-|[]]. apply (Hpne pid); [rewrite concat_mid, !in_app_iff; auto|reflexivity].
     + eapply (ownc_fr c s1 s2 [pid]); [exact Hfr2|exact Hoc].
+    + intros j k Hj (m & Hm & Hk). assert (m = p) by congruence. subst m. rewrite Hids in Hk.
+      destruct (Nat.lt_ge_cases j (length ia)).
+      * rewrite nth_error_app1 in * by assumption. exact Hk.
+      * rewrite nth_error_app2 in * by assumption. destruct (j - length ia)%nat eqn:Ej; [lia|]. exact Hk.
+Qed.
+
+Lemma cow_child_ok s pid lf es ka ck kb fp i :
+  rep s pid (Node lf es (ka ++ ck :: kb)) fp -> length ka = i ->
+  exists s' cid, s_maybe_cow_child s pid i = Ok (s', cid).
+Proof.
+  intros Hr Hi. apply rep_inv in Hr as (p & fps & Hp & Hl & He & Hk & -> & Hnd & Hlk).
+  apply reps_mid in Hk as (ia & cid0 & ib & fa & fc & fb & Hids & -> & Hra & Hrc & Hrb & Lia & Lfa).
+  unfold s_maybe_cow_child. unfold sget at 1. rewrite Hp. cbn [bind].
+  destruct (s_leaf p) eqn:El.
+  { subst lf. destruct (Hlk eq_refl) as (_ & Hx). destruct ka; discriminate. }
+  rewrite Hids, split_at_app by congruence. cbn [bind].
+  destruct ck as [clf ces cks]. apply rep_inv in Hrc as (cn & cfps & Hcn & _).
+  unfold s_maybe_cow, sget. rewrite Hcn. cbn [bind].
+  destruct (s_cr cn =? s_cr p)%nat.
+  - cbn [bind]. rewrite Nat.eqb_refl. eauto.
+  - unfold alloc. cbn [bind].
+    assert (Hlt : (cid0 < length s)%nat) by (apply nth_error_Some; congruence).
+    destruct (Nat.eqb_spec (length s) cid0); [lia|].
+    unfold upd, sget. rewrite nth_error_app1 by (apply nth_error_Some; congruence). rewrite Hp. cbn [bind]. eauto.
+Qed.
+
+(* ---------------------------------------------------------------- tools *)
+
+Definition kid_at (s : store) (pid i k : nat) : Prop :=
+  exists n, nth_error s pid = Some n /\ nth_error (s_kids n) i = Some k.
+
+(* writing the root node of a representation; the children stay *)
+Lemma rep_write_root s id lf es kids fp n n' :
+  rep s id (Node lf es kids) fp -> nth_error s id = Some n ->
+  s_kids n' = s_kids n -> s_leaf n' = s_leaf n ->
+  rep (sset s id n') id (Node lf (s_elts n') kids) fp.
+Proof.
+  intros Hr Hn Hk Hl. apply rep_inv in Hr as (n0 & fps & Hn0 & Hl0 & He0 & Hks & -> & Hnd & Hlk).
+  assert (n0 = n) by congruence. subst n0. rewrite <- Hl0, <- Hl.
+  assert (Hlt : (id < length s)%nat) by (apply nth_error_Some; congruence).
+  constructor.
+  - unfold sset. now apply nth_set_nth_eq.
+  - rewrite Hl, Hk. intros Hlf. rewrite Hl0 in Hlf. now destruct (Hlk Hlf).
+  - rewrite Hk. eapply reps_frame; [exact Hks|]. intros x Hx. unfold sset. apply nth_set_nth_ne.
+    intros ->. apply NoDup_cons_iff' in Hnd as (Hni & _). contradiction.
+  - assumption.
+Qed.
+
+Lemma nodup_replace (s : store) pid fa fc fc' fb :
+  NoDup (pid :: concat (fa ++ fc :: fb)) -> NoDup fc' ->
+  (forall x, In x fc' -> In x fc \/ (length s <= x)%nat) ->
+  (forall x, In x (pid :: concat (fa ++ fc :: fb)) -> (x < length s)%nat) ->
+  NoDup (pid :: concat (fa ++ fc' :: fb)).
+Proof.
+  intros Hnd Hnc Hnew Hval. rewrite concat_mid in *.
+  apply NoDup_cons_iff' in Hnd as (Hpn & Hnd). apply NoDup_cons_iff'.
+  apply NoDup_app_iff in Hnd as (Hna & Hncb & Hd1). apply NoDup_app_iff in Hncb as (Hncc & Hnb & Hd2).
+  assert (Hvp : (pid < length s)%nat) by (apply Hval; now left).
+  assert (Hva : forall x, In x (concat fa) -> (x < length s)%nat) by (intros x Hx; apply Hval; right; rewrite !in_app_iff; auto).
+  assert (Hvb : forall x, In x (concat fb) -> (x < length s)%nat) by (intros x Hx; apply Hval; right; rewrite !in_app_iff; auto).
+  split.
+  - intros Hi'. apply in_app_iff in Hi' as [Hi'|Hi']; [apply Hpn; apply in_app_iff; now left|].
+    apply in_app_iff in Hi' as [Hi'|Hi']; [|apply Hpn; rewrite !in_app_iff; auto].
+    destruct (Hnew _ Hi'); [apply Hpn; rewrite !in_app_iff; auto|lia].
+  - apply NoDup_app_iff. split; [assumption|]. split.
+    + apply NoDup_app_iff. split; [assumption|]. split; [assumption|].
+      intros x Hx Hxb. destruct (Hnew _ Hx) as [Hx'|Hx']; [apply (Hd2 x Hx' Hxb)|specialize (Hvb _ Hxb); lia].
+    + intros x Hx Hx2. apply in_app_iff in Hx2 as [Hx2|Hx2].
+      * destruct (Hnew _ Hx2) as [Hx'|Hx']; [apply (Hd1 x Hx); apply in_app_iff; now left|specialize (Hva _ Hx); lia].
+      * apply (Hd1 x Hx). apply in_app_iff. now right.
+Qed.
+
+(* a parent opened at one child *)
+Definition opened (s : store) (pid : nat) (es : list elt) (ia : list nat) (cid : nat) (ib : list nat)
+    (ka : list tree) (ck : tree) (kb : list tree) (fa : list (list nat)) (fc : list nat) (fb : list (list nat)) : Prop :=
+  exists n, nth_error s pid = Some n /\ s_cr n = c /\ s_leaf n = false /\ s_elts n = es /\ s_kids n = ia ++ cid :: ib /\
+  reps s ia ka fa /\ rep s cid ck fc /\ reps s ib kb fb /\ length ia = length ka /\
+  NoDup (pid :: concat (fa ++ fc :: fb)).
+
+Lemma opened_close s pid es ia cid ib ka ck kb fa fc fb :
+  opened s pid es ia cid ib ka ck kb fa fc fb ->
+  rep s pid (Node false es (ka ++ ck :: kb)) (pid :: concat (fa ++ fc :: fb)) /\ own s pid.
+Proof.
+  intros (n & Hn & Hc & Hl & He & Hk & Ha & Hck & Hb & Hlen & Hnd). split; [|exists n; auto].
+  rewrite <- Hl, <- He. constructor; [assumption|rewrite Hl; discriminate| |assumption].
+  rewrite Hk. apply reps_app; [assumption|]. now constructor.
+Qed.
+
+Lemma opened_valid s pid es ia cid ib ka ck kb fa fc fb :
+  opened s pid es ia cid ib ka ck kb fa fc fb ->
+  forall x, In x (pid :: concat (fa ++ fc :: fb)) -> (x < length s)%nat.
+Proof. intros H. destruct (opened_close _ _ _ _ _ _ _ _ _ _ _ _ H) as (Hr & _). eapply rep_valid; eauto. Qed.
+
+(* something happened inside the child's subtree only *)
+Lemma child_step s1 s2 pid es ia cid ib ka ck kb fa fc fb ck' fc' :
+  opened s1 pid es ia cid ib ka ck kb fa fc fb ->
+  rep s2 cid ck' fc' -> fr s1 s2 fc -> sub s1 fc fc' ->
+  opened s2 pid es ia cid ib ka ck' kb fa fc' fb /\
+  sub s1 (pid :: concat (fa ++ fc :: fb)) (pid :: concat (fa ++ fc' :: fb)).
+Proof.
+  intros Hop Hr' Hfr Hsub. pose proof (opened_valid _ _ _ _ _ _ _ _ _ _ _ _ Hop) as Hval.
+  destruct Hop as (n & Hn & Hc & Hl & He & Hk & Ha & Hck & Hb & Hlen & Hnd).
+  pose proof Hnd as Hnd0. rewrite concat_mid in Hnd0. apply NoDup_cons_iff' in Hnd0 as (Hpn & Hnd0).
+  apply NoDup_app_iff in Hnd0 as (Hna & Hncb & Hd1). apply NoDup_app_iff in Hncb as (Hncc & Hnb & Hd2).
+  split.
+  - exists n. split.
+    { destruct Hfr as (_ & F & _). rewrite F; [assumption|apply Hval; now left|]. intros Hi. apply Hpn. rewrite !in_app_iff. auto. }
+    split; [assumption|]. split; [assumption|]. split; [assumption|]. split; [assumption|].
+    split. { eapply reps_fr; [exact Ha|exact Hfr|]. intros x Hx Hx'. apply (Hd1 x Hx). apply in_app_iff. now left. }
+    split; [assumption|].
+    split. { eapply reps_fr; [exact Hb|exact Hfr|]. intros x Hx Hx'. apply (Hd2 x Hx' Hx). }
+    split; [assumption|].
+    eapply nodup_replace; eauto. eapply rep_nodup; eauto.
+  - intros x [<-|Hx]; [left; now left|]. rewrite concat_mid in *. rewrite !in_app_iff in Hx.
+    destruct Hx as [Hx|[Hx|Hx]]; [left; right; rewrite !in_app_iff; auto| |left; right; rewrite !in_app_iff; auto].
+    destruct (Hsub _ Hx); [left; right; rewrite !in_app_iff; auto|now right].
+Qed.
+
+Lemma rep_open s pid lf es ka ck kb fp :
+  rep s pid (Node lf es (ka ++ ck :: kb)) fp -> own s pid ->
+  exists ia cid ib fa fc fb, opened s pid es ia cid ib ka ck kb fa fc fb /\ fp = pid :: concat (fa ++ fc :: fb) /\ lf = false.
+Proof.
+  intros Hr (p0 & Hp0 & Hc0).
+  apply rep_inv in Hr as (p & fps & Hp & Hl & He & Hk & -> & Hnd & Hlk). assert (p0 = p) by congruence. subst p0.
+  apply reps_mid in Hk as (ia & cid & ib & fa & fc & fb & Hids & -> & Hra & Hrc & Hrb & Lia & Lfa).
+  assert (lf = false).
+  { destruct lf; [|reflexivity]. destruct (Hlk eq_refl) as (_ & Hx). destruct ka; discriminate. }
+  subst lf. exists ia, cid, ib, fa, fc, fb. split; [|auto]. exists p. auto 12.
+Qed.
+
+(* ---------------------------------------------------------------- steal from the right sibling *)
+
+Lemma is_minimal_eq t n : is_minimal t n = is_minimal_l t (length (n_elts n)).
+Proof. reflexivity. Qed.
+Lemma is_maximal_eq t n : is_maximal t n = is_maximal_l t (length (n_elts n)).
+Proof. reflexivity. Qed.
+
+Lemma rep_root s id lf es kids fp : rep s id (Node lf es kids) fp ->
+  exists n, nth_error s id = Some n /\ s_leaf n = lf /\ s_elts n = es.
+Proof. intros H. apply rep_inv in H as (n & fps & ? & ? & ? & _). eauto. Qed.
+
+Lemma sget_some s id n : nth_error s id = Some n -> sget s id = Ok n.
+Proof. unfold sget. now intros ->. Qed.
+
+Lemma upd_some s id f n : nth_error s id = Some n -> upd s id f = Ok (sset s id (f n)).
+Proof. intros H. unfold upd. now rewrite (sget_some _ _ _ H). Qed.
+
+Lemma nth_sset_eq s id n : (id < length s)%nat -> nth_error (sset s id n) id = Some n.
+Proof. apply nth_set_nth_eq. Qed.
+Lemma nth_sset_ne s id x n : x <> id -> nth_error (sset s id n) x = nth_error s x.
+Proof. intros H. apply nth_set_nth_ne. congruence. Qed.
+Lemma length_sset s id n : length (sset s id n) = length s.
+Proof. apply length_set_nth. Qed.
+
+Lemma sset_fr' s id n n' : nth_error s id = Some n -> s_cr n' = s_cr n -> fr s (sset s id n') [id].
+Proof. apply sset_fr. Qed.
+
+(* the footprint bookkeeping of a rearrangement: same ids, no more of them *)
+Lemma nodup_perm {A} (old new : list A) : NoDup old -> (length new <= length old)%nat -> incl old new -> NoDup new.
+Proof. intros. eapply NoDup_incl_NoDup; eauto. Qed.
+
+
+(* ---------------------------------------------------------------- local surgery on a parent and two adjacent children *)
+
+(* the new store: three cells rewritten, everything else as before *)
+Definition cells3 (s s' : store) (a : nat) (A : snode) (b : nat) (B : snode) (d : nat) (D : snode) : Prop :=
+  length s' = length s /\ nth_error s' a = Some A /\ nth_error s' b = Some B /\ nth_error s' d = Some D /\
+  forall x, x <> a -> x <> b -> x <> d -> nth_error s' x = nth_error s x.
+
+Lemma cells3_fr s s' a A b B d D A0 B0 D0 :
+  cells3 s s' a A b B d D ->
+  nth_error s a = Some A0 -> nth_error s b = Some B0 -> nth_error s d = Some D0 ->
+  s_cr A = s_cr A0 -> s_cr B = s_cr B0 -> s_cr D = s_cr D0 ->
+  fr s s' [a; b; d].
+Proof.
+  intros (L & Ha & Hb & Hd & Ho) Ha0 Hb0 Hd0 Ca Cb Cd. split; [lia|]. split.
+  - intros x Hx Hni. apply Ho; intros ->; apply Hni; cbn; auto.
+  - intros x m Hm. destruct (Nat.eq_dec x a) as [->|H1]; [exists A; split; [assumption|congruence]|].
+    destruct (Nat.eq_dec x b) as [->|H2]; [exists B; split; [assumption|congruence]|].
+    destruct (Nat.eq_dec x d) as [->|H3]; [exists D; split; [assumption|congruence]|].
+    exists m. split; [rewrite Ho; auto|reflexivity].
+Qed.
+
+(* parent pid with adjacent children lid, rid, all three nodes rewritten; the grandchildren
+   subtrees (represented in the OLD store) are redistributed between lid and rid *)
+Lemma surgery2 s s' pid P P' lid Ln L' rid Rn R' ia ib ka kb fa fb
+      lks fl rks fr lks' fl' rks' fr' :
+  nth_error s pid = Some P -> nth_error s lid = Some Ln -> nth_error s rid = Some Rn ->
+  s_kids P = ia ++ lid :: rid :: ib ->
+  reps s ia ka fa -> reps s ib kb fb ->
+  reps s (s_kids Ln) lks fl -> reps s (s_kids Rn) rks fr ->
+  NoDup (pid :: concat (fa ++ (lid :: concat fl) :: (rid :: concat fr) :: fb)) ->
+  cells3 s s' pid P' lid L' rid R' ->
+  s_kids P' = s_kids P -> s_leaf P' = false ->
+  reps s (s_kids L') lks' fl' -> reps s (s_kids R') rks' fr' ->
+  (s_leaf L' = true -> s_kids L' = []) -> (s_leaf R' = true -> s_kids R' = []) ->
+  incl (concat fl ++ concat fr) (concat fl' ++ concat fr') ->
+  (length (concat fl' ++ concat fr') <= length (concat fl ++ concat fr))%nat ->
+  rep s' pid (Node false (s_elts P')
+                (ka ++ Node (s_leaf L') (s_elts L') lks' :: Node (s_leaf R') (s_elts R') rks' :: kb))
+      (pid :: concat (fa ++ (lid :: concat fl') :: (rid :: concat fr') :: fb)) /\
+  (forall x, In x (pid :: concat (fa ++ (lid :: concat fl') :: (rid :: concat fr') :: fb)) ->
+             In x (pid :: concat (fa ++ (lid :: concat fl) :: (rid :: concat fr) :: fb))).
+Proof.
+  intros HP HL HR HkP Hra Hrb Hrl Hrr Hnd Hcells HkP' HlP' Hrl' Hrr' HlkL HlkR Hincl Hlen.
+  pose proof Hcells as (Hlen' & HP' & HL' & HR' & Hoth).
+  (* the new footprint is a rearrangement of the old one *)
+  assert (Hflat : NoDup (pid :: concat fa ++ (lid :: concat fl) ++ (rid :: concat fr) ++ concat fb)).
+  { rewrite concat_mid in Hnd. cbn [concat] in Hnd. exact Hnd. }
+  destruct (nd2 _ _ _ _ _ _ _ Hflat) as (Hndm & Hin_old & _ & _ & _).
+  assert (Hback : forall x, In x (concat fl' ++ concat fr') -> In x (concat fl ++ concat fr)).
+  { intros x Hx. apply (NoDup_length_incl Hndm Hlen Hincl). exact Hx. }
+  assert (Hnew_in : forall x, In x (pid :: concat (fa ++ (lid :: concat fl') :: (rid :: concat fr') :: fb)) ->
+             In x (pid :: concat (fa ++ (lid :: concat fl) :: (rid :: concat fr) :: fb))).
+  { intros x Hx. apply in_fp2. apply in_fp2 in Hx.
+    destruct Hx as [Hx|[Hx|[Hx|[Hx|[Hx|[Hx|Hx]]]]]]; try tauto.
+    - assert (Hq : In x (concat fl ++ concat fr)) by (apply Hback; apply in_app_iff; now left). apply in_app_iff in Hq. tauto.
+    - assert (Hq : In x (concat fl ++ concat fr)) by (apply Hback; apply in_app_iff; now right). apply in_app_iff in Hq. tauto. }
+  assert (Hnd' : NoDup (pid :: concat (fa ++ (lid :: concat fl') :: (rid :: concat fr') :: fb))).
+  { eapply nodup_perm; [exact Hnd| |].
+    - rewrite !len_fp2. rewrite !app_length in Hlen. lia.
+    - intros x Hx. apply in_fp2. apply in_fp2 in Hx.
+      destruct Hx as [Hx|[Hx|[Hx|[Hx|[Hx|[Hx|Hx]]]]]]; try tauto.
+      + assert (Hq : In x (concat fl' ++ concat fr')) by (apply Hincl; apply in_app_iff; now left). apply in_app_iff in Hq. tauto.
+      + assert (Hq : In x (concat fl' ++ concat fr')) by (apply Hincl; apply in_app_iff; now right). apply in_app_iff in Hq. tauto. }
+  split; [|exact Hnew_in].
+  assert (Hfrm : forall ids trs fps, reps s ids trs fps ->
+            (forall x, In x (concat fps) -> x <> pid /\ x <> lid /\ x <> rid) -> reps s' ids trs fps).
+  { intros ids trs fps Hr Hd. eapply reps_frame; [exact Hr|]. intros x Hx. destruct (Hd x Hx) as (H1 & H2 & H3). now apply Hoth. }
+  rewrite <- HlP'. constructor; [assumption|rewrite HlP'; discriminate| |exact Hnd'].
+  rewrite HkP', HkP. apply reps_app.
+  { apply (Hfrm _ _ _ Hra). intros x Hx. apply Hin_old. tauto. }
+  assert (Hsubl : forall x, In x (concat fl') -> x <> pid /\ x <> lid /\ x <> rid).
+  { intros x Hx. apply Hin_old. assert (Hq : In x (concat fl ++ concat fr)) by (apply Hback; apply in_app_iff; now left). apply in_app_iff in Hq. tauto. }
+  assert (Hsubr : forall x, In x (concat fr') -> x <> pid /\ x <> lid /\ x <> rid).
+  { intros x Hx. apply Hin_old. assert (Hq : In x (concat fl ++ concat fr)) by (apply Hback; apply in_app_iff; now right). apply in_app_iff in Hq. tauto. }
+  assert (Hflat' : NoDup (pid :: concat fa ++ (lid :: concat fl') ++ (rid :: concat fr') ++ concat fb)).
+  { rewrite concat_mid in Hnd'. cbn [concat] in Hnd'. exact Hnd'. }
+  destruct (nd2 _ _ _ _ _ _ _ Hflat') as (_ & _ & HndL & HndR & _).
+  constructor; [|constructor].
+  - constructor; [assumption|assumption| |assumption]. apply (Hfrm _ _ _ Hrl'). exact Hsubl.
+  - constructor; [assumption|assumption| |assumption]. apply (Hfrm _ _ _ Hrr'). exact Hsubr.
+  - apply (Hfrm _ _ _ Hrb). intros x Hx. apply Hin_old. tauto.
+Qed.
+
+Lemma right_steal_sim t s pid p fp selfid index p' b :
+  rep s pid p fp -> own s pid -> own s selfid -> kid_at s pid index selfid ->
+  try_right_steal t p index = Ok (p', b) ->
+  exists s' fp', s_try_right_steal t s selfid pid index = Ok (s', b) /\
+     rep s' pid p' fp' /\ sub s fp fp' /\ fr s s' fp /\ own s' pid /\ own s' selfid /\
+     kid_at s' pid index selfid.
+Proof.
+  intros Hr Hop Hos Hkid Hv. destruct p as [plf pes pks]. unfold try_right_steal in Hv.
+  destruct (split_at index pks) as [((ka & self) & rest)| |] eqn:Esp; cbn [bind] in Hv; try discriminate.
+  apply split_at_inv in Esp as (-> & Hka).
+  destruct (rep_open _ _ _ _ _ _ _ _ Hr Hop) as (ia & sid & ib & fa & fs & fb & Hopen & -> & ->).
+  pose proof Hopen as (n & Hn & Hcn & Hln & Hen & Hkn & Hra & Hrs & Hrb & Hlia & Hnd).
+  assert (sid = selfid).
+  { destruct Hkid as (n0 & Hn0 & Hk0). assert (n0 = n) by congruence. subst n0.
+    rewrite Hkn in Hk0. rewrite <- Hka, <- Hlia, nth_error_app_mid in Hk0. congruence. }
+  subst sid.
+  assert (Hidx : S index = length (ia ++ [selfid])) by (rewrite app_length; cbn; lia).
+  unfold s_try_right_steal. rewrite (sget_some _ _ _ Hn). cbn [bind]. rewrite Hkn, Hidx.
+  destruct rest as [|rgt kb].
+  { apply reps_nil_inv in Hrb as (-> & ->). inversion Hv; subst p' b.
+    assert (Hnone : nth_error (ia ++ [selfid]) (length (ia ++ [selfid])) = None) by (apply nth_error_None; lia).
+    rewrite Hnone.
+    exists s, (pid :: concat (fa ++ [fs])). split; [reflexivity|].
+    destruct (opened_close _ _ _ _ _ _ _ _ _ _ _ _ Hopen) as (Hrc & _).
+    split; [assumption|]. split; [apply sub_refl|]. split; [apply fr_refl|]. auto. }
+  apply reps_cons_inv in Hrb as (rid0 & ib' & fr0 & fb' & -> & -> & Hrr0 & Hrb').
+  replace (ia ++ selfid :: rid0 :: ib') with ((ia ++ [selfid]) ++ rid0 :: ib') by (now rewrite <- app_assoc).
+  rewrite nth_error_app_mid.
+  destruct rgt as [rlf res_ rks]. destruct self as [slf ses sks].
+  destruct (rep_root _ _ _ _ _ _ Hrr0) as (r0 & Hr0 & Hlr0 & Her0).
+  rewrite (sget_some _ _ _ Hr0). cbn [bind]. rewrite Her0.
+  rewrite is_minimal_eq in Hv. cbn [n_elts] in Hv.
+  destruct (is_minimal_l t (length res_)) as [mn| |] eqn:Emn; cbn [bind] in Hv |- *; try discriminate.
+  destruct mn.
+  { inversion Hv; subst p' b.
+    exists s, (pid :: concat (fa ++ fs :: fr0 :: fb')). split; [reflexivity|].
+    destruct (opened_close _ _ _ _ _ _ _ _ _ _ _ _ Hopen) as (Hrc & _).
+    split; [assumption|]. split; [apply sub_refl|]. split; [apply fr_refl|]. auto. }
+  destruct (split_at index pes) as [((ea & pe) & eb)| |] eqn:Ees; cbn [bind] in Hv; try discriminate.
+  destruct res_ as [|re res']; [discriminate|].
+  (* copy-on-write of the right sibling *)
+  assert (Hr2 : rep s pid (Node false pes ((ka ++ [Node slf ses sks]) ++ Node rlf (re :: res') rks :: kb)) (pid :: concat (fa ++ fs :: fr0 :: fb'))).
+  { rewrite <- app_assoc. exact Hr. }
+  assert (Hl2 : length (ka ++ [Node slf ses sks]) = length (ia ++ [selfid])) by (rewrite !app_length; cbn; lia).
+  destruct (cow_child_ok _ _ _ _ _ _ _ _ _ Hr2 Hl2) as (s1 & rid & Ecow). rewrite Ecow. cbn [bind].
+  destruct (cow_child_sim _ _ _ _ _ _ _ _ _ _ _ Hr2 Hl2 Hop Ecow)
+    as (n1 & ia1 & ib1 & fa1 & fr & fb1 & Hn1 & Hcn1 & Hln1 & Hen1 & Hkn1 & Hra1 & Hrr & Hrb1 & Hlia1 & Hnd1 & Hor & Hfr1 & Hsub1 & Hoth).
+  rewrite (sget_some _ _ _ Hn1). cbn [bind]. rewrite Hen1, Ees. cbn [bind].
+  (* the left part still ends with selfid *)
+  apply reps_split in Hra1 as (ia2 & isf & fa2 & fsf & -> & -> & Hra2 & Hrsf & Lia2 & Lfa2).
+  apply reps_cons_inv in Hrsf as (sid2 & isf' & fs1 & fsf' & -> & -> & Hrs1 & Hnil). apply reps_nil_inv in Hnil as (-> & ->).
+  assert (Hia2 : length ia2 = index) by (rewrite !app_length in Hlia1; cbn in Hlia1; lia).
+  assert (sid2 = selfid).
+  { assert (Hk : nth_error ((ia2 ++ [sid2]) ++ rid :: ib1) index = Some selfid).
+    { apply Hoth; [rewrite app_length; cbn; lia|]. exists n. split; [assumption|].
+      rewrite Hkn. rewrite <- Hka, <- Hlia. apply nth_error_app_mid. }
+    rewrite <- app_assoc in Hk. cbn [app] in Hk. rewrite <- Hia2 in Hk. rewrite nth_error_app_mid in Hk. congruence. }
+  subst sid2.
+  apply rep_inv in Hrr as (r & frk & Hrn & Hlr & Her & Hrks & -> & Hndr & Hlkr).
+  apply rep_inv in Hrs1 as (sn & fsk & Hsn & Hlsn & Hesn & Hsks & -> & Hnds & Hlks).
+  rewrite <- app_assoc in Hnd1, Hsub1, Hkn1. cbn [app] in Hnd1, Hsub1, Hkn1.
+  assert (Hflat1 : NoDup (pid :: concat fa2 ++ (selfid :: concat fsk) ++ (rid :: concat frk) ++ concat fb1)).
+  { rewrite concat_mid in Hnd1. cbn [concat] in Hnd1. exact Hnd1. }
+  destruct (nd2 _ _ _ _ _ _ _ Hflat1) as (_ & _ & _ & _ & (Hps & Hpr & Hsr)).
+  assert (Hrs' : rid <> selfid) by congruence.
+  rewrite (sget_some _ _ _ Hrn). cbn [bind]. rewrite Her.
+  assert (Hvp : (pid < length s1)%nat) by (apply nth_error_Some; congruence).
+  assert (Hvr : (rid < length s1)%nat) by (apply nth_error_Some; congruence).
+  assert (Hvs : (selfid < length s1)%nat) by (apply nth_error_Some; congruence).
+  (* the three element writes *)
+  rewrite (upd_some _ _ _ _ Hrn). cbn [bind].
+  set (s2 := sset s1 rid (w_elts r res')).
+  assert (Hn1_2 : nth_error s2 pid = Some n1) by (unfold s2; rewrite nth_sset_ne; auto).
+  rewrite (upd_some _ _ _ _ Hn1_2). cbn [bind].
+  set (s3 := sset s2 pid (w_elts n1 (ea ++ re :: eb))).
+  assert (Hsn_3 : nth_error s3 selfid = Some sn).
+  { unfold s3, s2. rewrite !nth_sset_ne; auto. }
+  rewrite (upd_some _ _ _ _ Hsn_3). cbn [bind].
+  set (s4 := sset s3 selfid (w_elts sn (s_elts sn ++ [pe]))).
+  assert (Hr_4 : nth_error s4 rid = Some (w_elts r res')).
+  { unfold s4, s3. rewrite !nth_sset_ne by auto. unfold s2. apply nth_sset_eq. assumption. }
+  rewrite (sget_some _ _ _ Hr_4). cbn [bind w_elts s_leaf]. rewrite Hlr.
+  assert (Hp_4 : nth_error s4 pid = Some (w_elts n1 (ea ++ re :: eb))).
+  { unfold s4. rewrite nth_sset_ne by auto. unfold s3. apply nth_sset_eq. unfold s2. rewrite length_sset. assumption. }
+  assert (Hs_4 : nth_error s4 selfid = Some (w_elts sn (s_elts sn ++ [pe]))).
+  { unfold s4. apply nth_sset_eq. unfold s3, s2. rewrite !length_sset. assumption. }
+  assert (Hoth4 : forall x, x <> rid -> x <> pid -> x <> selfid -> nth_error s4 x = nth_error s1 x).
+  { intros x H1 H2 H3. unfold s4, s3, s2. rewrite !nth_sset_ne; auto. }
+  assert (Hlen4 : length s4 = length s1) by (unfold s4, s3, s2; rewrite !length_sset; reflexivity).
+  assert (Hown4s0 : s_cr sn = c).
+  { destruct Hos as (m & Hm & Hcm). destruct Hfr1 as (_ & _ & C1). destruct (C1 _ _ Hm) as (m' & Hm' & Hcm'). congruence. }
+  assert (Hcr : s_cr r = c) by (destruct Hor as (m & Hm & Hcm); congruence).
+  assert (Hfinish : forall sF L' R' lks' fl' rks' fr',
+    cells3 s1 sF pid (w_elts n1 (ea ++ re :: eb)) selfid L' rid R' ->
+    s_cr L' = c -> s_cr R' = c ->
+    reps s1 (s_kids L') lks' fl' -> reps s1 (s_kids R') rks' fr' ->
+    (s_leaf L' = true -> s_kids L' = []) -> (s_leaf R' = true -> s_kids R' = []) ->
+    incl (concat fsk ++ concat frk) (concat fl' ++ concat fr') ->
+    (length (concat fl' ++ concat fr') <= length (concat fsk ++ concat frk))%nat ->
+    exists fp', rep sF pid (Node false (ea ++ re :: eb) (ka ++ Node (s_leaf L') (s_elts L') lks' :: Node (s_leaf R') (s_elts R') rks' :: kb)) fp' /\
+      sub s (pid :: concat (fa ++ fs :: fr0 :: fb')) fp' /\ fr s sF (pid :: concat (fa ++ fs :: fr0 :: fb')) /\
+      own sF pid /\ own sF selfid /\ kid_at sF pid index selfid).
+  { intros sF L' R' lks' fl' rks' fr' Hcells HcL HcR HrL HrR HlkL HlkR Hincl Hlen.
+    destruct (surgery2 s1 sF pid n1 (w_elts n1 (ea ++ re :: eb)) selfid sn L' rid r R' ia2 ib1 ka kb fa2 fb1
+                sks fsk rks frk lks' fl' rks' fr') as (Hrep & Hback); try assumption; try reflexivity.
+    eexists. split; [exact Hrep|].
+    pose proof Hcells as (HlenF & HPF & HLF & HRF & HothF).
+    assert (HfrF : fr s1 sF [pid; selfid; rid]).
+    { eapply cells3_fr; [exact Hcells|exact Hn1|exact Hsn|exact Hrn|reflexivity|congruence|congruence]. }
+    split; [|split; [|split; [|split]]].
+    - intros x Hx. apply Hsub1. apply Hback. exact Hx.
+    - eapply fr_trans; [eapply fr_weaken; [exact Hfr1|]|exact Hsub1|eapply fr_weaken; [exact HfrF|]].
+      + intros x [<-|[]]. now left.
+      + intros x Hx. apply in_fp2. pose proof (rep_root_in) as _. cbn [In] in Hx. destruct Hx as [<-|[<-|[<-|[]]]]; tauto.
+    - exists (w_elts n1 (ea ++ re :: eb)). split; [assumption|cbn; assumption].
+    - exists L'. split; assumption.
+    - exists (w_elts n1 (ea ++ re :: eb)). split; [assumption|]. cbn [w_elts s_kids]. rewrite Hkn1.
+      rewrite <- Hia2. apply nth_error_app_mid. }
+  destruct rlf.
+  - (* the right sibling is a leaf *)
+    inversion Hv; subst p' b; clear Hv.
+    destruct (Hfinish s4 (w_elts sn (s_elts sn ++ [pe])) (w_elts r res') sks fsk rks frk) as (fp' & Hrep & Hrest); try assumption; try (cbn; assumption).
+    + split; [assumption|]. split; [assumption|]. split; [assumption|]. split; [assumption|]. intros x H1 H2 H3. apply Hoth4; auto.
+    + cbn. rewrite Hlsn. intros Hl. destruct (Hlks Hl). assumption.
+    + cbn. intros _. destruct (Hlkr eq_refl). assumption.
+    + apply incl_refl.
+    + lia.
+    + exists s4, fp'. split; [reflexivity|]. cbn [w_elts s_leaf s_elts] in Hrep. rewrite Hlsn, Hesn, Hlr in Hrep. split; assumption.
+  - (* internal nodes: the first child of the right sibling moves over *)
+    rewrite (sget_some _ _ _ Hs_4). cbn [bind w_elts s_leaf]. rewrite Hlsn.
+    destruct slf; [discriminate|].
+    destruct rks as [|rc rks']; [discriminate|]. inversion Hv; subst p' b; clear Hv.
+    apply reps_cons_inv in Hrks as (rcid & rkids' & frc & frk' & Hkr & -> & Hrrc & Hrrks').
+    cbn [s_kids w_elts]. rewrite Hkr.
+    rewrite (upd_some _ _ _ _ Hr_4). cbn [bind].
+    set (s5 := sset s4 rid (w_kids (w_elts r res') rkids')).
+    assert (Hs_5 : nth_error s5 selfid = Some (w_elts sn (s_elts sn ++ [pe]))) by (unfold s5; rewrite nth_sset_ne; auto).
+    rewrite (upd_some _ _ _ _ Hs_5). cbn [bind].
+    set (s6 := sset s5 selfid (w_kids (w_elts sn (s_elts sn ++ [pe])) (s_kids sn ++ [rcid]))).
+    destruct (Hfinish s6 (w_kids (w_elts sn (s_elts sn ++ [pe])) (s_kids sn ++ [rcid])) (w_kids (w_elts r res') rkids')
+                (sks ++ [rc]) (fsk ++ [frc]) rks' frk') as (fp' & Hrep & Hrest); try (cbn; assumption).
+    + unfold s6, s5. split; [rewrite !length_sset; assumption|]. split; [rewrite !nth_sset_ne by auto; assumption|].
+      split; [apply nth_sset_eq; rewrite length_sset; lia|]. split; [rewrite nth_sset_ne by auto; apply nth_sset_eq; lia|].
+      intros x H1 H2 H3. rewrite !nth_sset_ne by auto. apply Hoth4; auto.
+    + cbn. apply reps_app; [assumption|]. constructor; [assumption|constructor].
+    + cbn. rewrite Hlsn. discriminate.
+    + cbn. rewrite Hlr. discriminate.
+    + intros x Hx. rewrite concat_app. cbn [concat] in *. rewrite ?app_nil_r. rewrite !in_app_iff in *. tauto.
+    + rewrite concat_app. cbn [concat]. rewrite ?app_nil_r. rewrite !app_length. lia.
+    + exists s6, fp'. split; [reflexivity|]. cbn [w_elts w_kids s_leaf s_elts] in Hrep. rewrite Hlsn, Hesn, Hlr in Hrep. split; assumption.
 Qed.
 
 End SIM.
